@@ -1246,6 +1246,14 @@ func exprName(v ssa.Value) string {
 		if g, ok := u.X.(*ssa.Global); ok {
 			return g.Name()
 		}
+		// a function-typed struct field (pa.onUnavailableHook) is known by the field name
+		if fa, ok := u.X.(*ssa.FieldAddr); ok {
+			if pt, ok := fa.X.Type().Underlying().(*types.Pointer); ok {
+				if st, ok := pt.Elem().Underlying().(*types.Struct); ok && fa.Field < st.NumFields() {
+					return st.Field(fa.Field).Name()
+				}
+			}
+		}
 	}
 	return v.Name()
 }
@@ -1777,6 +1785,13 @@ func (ex *Exec) loopInsertsInto(in *ssa.Next, mt *types.Map) bool {
 				if bi, ok := ins.Call.Value.(*ssa.Builtin); ok && (bi.Name() == "delete" || bi.Name() == "len" || bi.Name() == "append" || bi.Name() == "copy" || bi.Name() == "cap") {
 					continue
 				}
+				if callee := ins.Call.StaticCallee(); callee != nil && strings.HasPrefix(funcPkgPath(callee), modulePath) && len(callee.Blocks) > 0 {
+					// an in-module callee that may modify the map: does it (or what it calls) insert, or only delete?
+					if ex.funcInsertsInto(callee, mt, 0) {
+						return true
+					}
+					continue
+				}
 				m := ex.w.instrMods(ex.c, ins, ex)
 				if m.all || m.keys[kh] {
 					return true
@@ -1850,4 +1865,39 @@ func (ex *Exec) describe() string {
 	var b strings.Builder
 	ex.fn.WriteTo(&b)
 	return b.String()
+}
+
+// funcInsertsInto: fn (or an in-module function it calls, to a small depth) may insert into a map of type mt.
+func (ex *Exec) funcInsertsInto(fn *ssa.Function, mt *types.Map, depth int) bool {
+	if depth > 3 {
+		return true
+	}
+	kh := ex.c.keyMapHas(mt)
+	for _, b := range fn.Blocks {
+		for _, ins := range b.Instrs {
+			switch ins := ins.(type) {
+			case *ssa.MapUpdate:
+				if types.Identical(ins.Map.Type().Underlying(), mt) {
+					return true
+				}
+			case *ssa.Call:
+				if _, ok := ins.Call.Value.(*ssa.Builtin); ok {
+					continue
+				}
+				if callee := ins.Call.StaticCallee(); callee != nil && strings.HasPrefix(funcPkgPath(callee), modulePath) && len(callee.Blocks) > 0 {
+					if ex.funcInsertsInto(callee, mt, depth+1) {
+						return true
+					}
+					continue
+				}
+				m := ex.w.instrMods(ex.c, ins, nil)
+				if m.all || m.keys[kh] {
+					return true
+				}
+			case *ssa.Defer, *ssa.Go:
+				return true
+			}
+		}
+	}
+	return false
 }
